@@ -105,7 +105,10 @@ def loadType (s : AnState) (t : Nat) : AnState :=
 def countType (s : AnState) (t : Nat) : Nat := (ofType t s.tree).length
 
 inductive Op where
-  | start                                         -- (re)open + `ANstart`: no tree loaded
+  | start                                         -- `Hopen` of a file that is not open (new `filerec_t`) + `ANstart`: no tree loaded
+  | endan                                         -- `ANend`; the file id stays open, the `filerec_t` lives on
+  | restart                                       -- `ANstart` on a file id of a `filerec_t` that is still open
+  | hput (tag ref : Nat) (b : Bytes)              -- `Hputelement` of an annotation element through an open file id
   | fileinfo                                      -- `ANfileinfo`
   | create (t etag eref annref : Nat)             -- `ANcreate`/`ANcreatef`; `annref` = what `Htagnewref` returned
   | writeann (t annref : Nat) (text : Bytes)      -- `ANwriteann`
@@ -150,6 +153,13 @@ def dfLocate (tag : Nat) (target : Nat × Nat) (elems : List ((Nat × Nat) × By
 
 def step (s : AnState) : Op → AnState × Out
   | .start => ({ s with tree := [], loaded := [] }, .ok)
+  -- `ANend`: for EACH of the four types the tree is freed (`tbbtdfree`), its annotation atoms are removed, and
+  -- `an_tree[type] = NULL; an_num[type] = -1` — nothing of the session survives in the file record
+  | .endan => ({ s with tree := [], loaded := [] }, .ok)
+  -- `ANstart`: `HIfid2rec` + `ANIinit`; the annotation state of the file record is not touched, so what the next
+  -- session sees is whatever `ANend` (or `Hopen`) left there: nothing
+  | .restart => (s, .ok)
+  | .hput tag ref b => ({ s with elems := elemPut (tag, ref) b s.elems }, .ok)
   | .fileinfo =>
     let s1 := loadType (loadType (loadType (loadType s AN_FILE_LABEL) AN_FILE_DESC) AN_DATA_LABEL) AN_DATA_DESC
     (s1, .nats [countType s1 AN_FILE_LABEL, countType s1 AN_FILE_DESC, countType s1 AN_DATA_LABEL, countType s1 AN_DATA_DESC])
